@@ -24,14 +24,40 @@ REPORT() { echo "probe:$1 fds=$(wc -l < "$HOME/fds.$1") kids=$(wc -w < "$HOME/ki
 '''
 
 
-def build_script(P, n_iter):
-    r = Renderer(P, use9=False)
-    body = r.r(1)
-    ctr = " ".join(["q%d" % (i + 1) for i, nd in enumerate(P) if nd["t"] == "while"] + ["k%d" % (i + 1) for i, nd in enumerate(P) if nd["t"] == "kc"])
+# hand-written bodies: failures that leave a loop, a function or a list part-way (errors in arithmetic-for headers and bodies, recoverable
+# errors inside loops), at top level where nothing else restores the interpreter's counters.  (Level counts beyond the nesting are C02's
+# business: F-C02 BreakNotClamped.)
+RAW_BODIES = [
+    'for ((i=0; i<1/0; i++)); do echo never; done',
+    'for ((i=0; i<2; i++)); do echo $((1/0)); echo unreached; done',
+    'for ((i=1/0; i<2; i++)); do :; done',
+    'for ((i=0; i<2; i+=1/0)); do echo once; done',
+    'while :; do echo $((1/0)); break; done',
+    'until false; do (( 1/0 )); echo after-err; break; done',
+    'for x in a b; do echo $((x/0)); done',
+    'for x in a; do for ((j=0; j<1/0; j++)); do :; done; echo inner-done; done',
+    'f() { for ((;1;)); do return $((1/0)); done; }; f',
+    'f() { while :; do for ((i=0;i<1/0;i++)); do :; done; break; done; }; f; f',
+    'case x in x) for ((;1/0;)); do :; done ;; esac',
+    '{ for ((i=0; i<1/0; i++)); do :; done; } 2>/dev/null; if (( 1/0 )); then :; fi',
+    'for ((i=0; i<2; i++)); do nosuchcmd_zz; FR; done',
+    'for ((i=0; i<2; i++)); do RO=2; echo ro-$i; done',
+    'eval "for ((i=0; i<1/0; i++)); do :; done"',
+]
+
+
+def build_script(P, n_iter, raw=None):
+    if raw is None:
+        r = Renderer(P, use9=False)
+        body = r.r(1)
+        ctr = " ".join(["q%d" % (i + 1) for i, nd in enumerate(P) if nd["t"] == "while"] + ["k%d" % (i + 1) for i, nd in enumerate(P) if nd["t"] == "kc"])
+    else:
+        body, ctr = raw, ""
     lines = [PRELUDE % {"R": ""}, EXTRA_PRELUDE]
     for k in range(n_iter):
         lines.append(body)
-        lines.append("echo \"it:$?\"")
+        # outside any loop `break` / `continue` are refused and the script goes on: with a leaked loop counter they would silently end it
+        lines.append("__s=$?; break 2>/dev/null; continue 2>/dev/null; echo \"it:$__s\"")
         if ctr:
             lines.append("unset " + ctr)
         if k == 0:
@@ -130,6 +156,8 @@ def run(tier):
     for k, P in enumerate(progs):
         n = iters[1] if (tier == "quick" or k % 25) else iters[-1]
         runs.append({"k": k, "P": P, "n": n, "script": build_script(P, n)})
+    for raw in RAW_BODIES:
+        runs.append({"k": len(runs), "P": None, "n": iters[1], "script": build_script(None, iters[1], raw=raw)})
 
     def one(rn):
         d = tempfile.mkdtemp(prefix="c18-", dir=scratch())
